@@ -38,6 +38,9 @@ func DecodeTraf(hdr BoxHeader, startPos uint64, r io.Reader) (Box, error) {
 			return nil, err
 		}
 	}
+	if t.Tfhd == nil {
+		return nil, fmt.Errorf("traf: mandatory tfhd box is missing")
+	}
 	return t, nil
 }
 
@@ -53,6 +56,9 @@ func DecodeTrafSR(hdr BoxHeader, startPos uint64, sr bits.SliceReader) (Box, err
 		if err != nil {
 			return nil, err
 		}
+	}
+	if t.Tfhd == nil {
+		return nil, fmt.Errorf("traf: mandatory tfhd box is missing")
 	}
 	return t, nil
 }
